@@ -1147,13 +1147,17 @@ func main() {
 	var states []st
 	totalStates := 0
 	for _, cn := range cfgNames {
-		bs := mc.ReplayBFS(mc.BFSConfig{Tag: cn, NumOps: len(recipeNames), MaxDepth: maxDepth, Pool: pool, OnViol: r.OnViol, Stop: r.Expired,
+		depth := maxDepth
+		if !r.Quick() && cn == "std" {
+			depth = maxDepth + 1
+		}
+		bs := mc.ReplayBFS(mc.BFSConfig{Tag: cn, NumOps: len(recipeNames), MaxDepth: depth, Pool: pool, OnViol: r.OnViol, Stop: r.Expired,
 			OnState: func(path []int, _ *mc.ExecResult) {
 				states = append(states, st{cn, append([]int{}, path...), len(path)})
 			}})
 		totalStates += bs.States
 		cov["bfs_"+cn] = map[string]any{"states": bs.States, "frontier_per_depth": bs.Frontier, "disabled": bs.Disabled, "revisits": bs.Revisits, "complete": bs.Complete}
-		fmt.Printf("recipe BFS cfg=%s depth<=%d: states=%d frontier=%v disabled=%d revisits=%d complete=%v\n", cn, maxDepth, bs.States, bs.Frontier, bs.Disabled, bs.Revisits, bs.Complete)
+		fmt.Printf("recipe BFS cfg=%s depth<=%d: states=%d frontier=%v disabled=%d revisits=%d complete=%v\n", cn, depth, bs.States, bs.Frontier, bs.Disabled, bs.Revisits, bs.Complete)
 		if !bs.Complete {
 			r.Exhaustive = false
 		}
@@ -1278,7 +1282,7 @@ func main() {
 	cov["templates"] = tnames
 	cov["failure_points_instrumented"] = fps
 	cov["recipes"] = recipeNames
-	cov["bounds"] = map[string]any{"recipe_depth": maxDepth, "block_len": maxLen, "templates": len(templates), "small_block_tx_bytes": configs["small"].sizeExtra}
+	cov["bounds"] = map[string]any{"recipe_depth_quick": maxDepth, "recipe_depth_thorough_std": maxDepth + 1, "block_len": maxLen, "templates": len(templates), "small_block_tx_bytes": configs["small"].sizeExtra}
 	r.Finish(cov)
 }
 
